@@ -1,7 +1,7 @@
 ------------------------- MODULE TLSTruncationTrace -------------------------
 (* trace = [par |-> [total, cut, plain, standard], events |-> << [ev, n, ok] >>]
    "wrap_error" ok (ok = the wrapped transport was closed) | "wrap_ok" | "data" n ok (ok = bytes match the plaintext at that offset)
-   | "eof" | "error"                                                                                                     *)
+   | "eof" | "error" | "caller_eof" | "caller_error" (what recv_packet told its caller, at the end and when asked again)                                                                                                     *)
 EXTENDS TLSTruncation, Sequences, Json, IOUtils
 Traces == JsonDeserialize(IOEnv.TRACE_FILE)
 VARIABLES tid, l
@@ -15,6 +15,8 @@ TNext == /\ (CleanEofOnlyAfterCloseNotify /\ TruncationIsReported /\ NothingInve
             \/ IsEvent("data") /\ Ev.ok = TRUE /\ Data(Ev.n)
             \/ IsEvent("eof") /\ Eof
             \/ IsEvent("error") /\ Error
+            \/ IsEvent("caller_eof") /\ CallerEof
+            \/ IsEvent("caller_error") /\ CallerError
 ASSUME \A x \in 1..Len(Traces) : TLCSet(x, 0)
 Constr == TLCSet(tid, IF TLCGet(tid) > l THEN TLCGet(tid) ELSE l)
 Post == LET bad == {x \in 1..Len(Traces) : TLCGet(x) <= Len(Traces[x].events)} IN
